@@ -724,8 +724,8 @@ static _ure_trie_t cclass_trie[] = {
   {'e', 1, 70, 0},
   {':', 1, 71, _URE_TITLE},
 /* mhs: duplicated, so I dont have to renumber everything */
-  {'f', 1, 77, 0},
-  {'r', 2, 73, 0},
+  {'f', 2, 77, 0},
+  {'r', 1, 73, 0},
   {'a', 1, 74, 0},
   {'p', 1, 75, 0},
   {'h', 1, 76, 0},
